@@ -54,6 +54,8 @@ func runC07(c *Ctx) {
 	c07Selector(c)
 	c07R4(c)
 	c07R5(c)
+	c07ValidatedObject(c)
+	c07StampBeforePersist(c)
 }
 
 // notExpired: the path carries the literal "t is not before now" for term t.
@@ -830,4 +832,130 @@ func delegatesTo(ex *Exploration, method string) bool {
 		}
 	}
 	return true
+}
+
+// C07.R6 — expiry is judged on the stored grant. The strategies read the expiry
+// from the session of the requester they are handed (falling back to its
+// RequestedAt + lifespan). A handler that has just looked the credential up
+// must hand them the request the store returned: the incoming request carries a
+// fresh session and "now" as RequestedAt, so validating it can never report
+// expiry with a store that does not hydrate the session argument (the reference
+// store does not). The authorization-code handler is the documented exception
+// (its validate phase relies on hydration; its issue phase re-validates with
+// the stored session installed — DESIGN section 5, observed).
+func c07ValidatedObject(c *Ctx) {
+	const rule = "C07.R6"
+	pairs := map[string]string{
+		".ValidateAccessToken":  ".GetAccessTokenSession",
+		".ValidateRefreshToken": ".GetRefreshTokenSession",
+		".ValidateDeviceCode":   ".GetDeviceCodeSession",
+	}
+	names := map[string]bool{}
+	for v := range pairs {
+		names[v] = true
+	}
+	n := 0
+	for _, en := range c.allEntries() {
+		if en.role == "endpoint" || !c.P.CallsNamedAny(en.fn, 3, names) {
+			continue
+		}
+		ex := c.Explore(en.fn, handlerCfg(), "handler")
+		if !c.complete(ex, rule, en.role, en.fn) {
+			continue
+		}
+		ok, m := true, 0
+		var w *Path
+		why := ""
+		for _, p := range ex.Paths {
+			for v, lkName := range pairs {
+				for _, e := range p.Calls(v) {
+					var lk *Event
+					for _, l := range p.Calls(lkName) {
+						if l.Idx < e.Idx {
+							lk = l
+						}
+					}
+					if lk == nil {
+						continue // no storage lookup on this path (stateless validation)
+					}
+					m++
+					if e.Arg(1).Key() != lk.Ret(0).Key() {
+						ok, w = false, p
+						why = fmt.Sprintf("%s (%s) judges %s, not the request %s returned", v, c.P.Pos(e.Instr.Pos()), clip(e.Arg(1).Pretty(), 60), lkName)
+					}
+				}
+			}
+		}
+		if m > 0 {
+			n++
+			c.Check(ok, rule, en.role, en.fn, "validates-stored-request", "after a storage lookup the credential's validity (expiry) is judged on the request the store returned, not on the incoming request", why, w)
+		}
+	}
+	if n < 3 {
+		c.RoleUnmatched(rule, "validate-after-lookup", fmt.Sprintf("at least 3 handler functions validating a looked-up credential; found %d", n))
+	}
+}
+
+// C07.R7 — an expiry is written into the session before the grant is persisted.
+// Handlers stamp the lifetime into the session of the request and then hand the
+// request to storage. A store that serialises on write (any real one) keeps
+// what the session held at that moment: an expiry stamped afterwards is lost,
+// and the validator later falls back to "RequestedAt of the presenting request
+// + lifespan", which never expires. The reference store shares the session
+// pointer, so unit and integration tests cannot see the difference.
+func c07StampBeforePersist(c *Ctx) {
+	const rule = "C07.R7"
+	creates := map[string]bool{".CreateAuthorizeCodeSession": true, ".CreateAccessTokenSession": true, ".CreateRefreshTokenSession": true,
+		".CreateDeviceAuthSession": true, ".CreatePARSession": true, ".CreateOpenIDConnectSession": true, ".CreatePKCERequestSession": true}
+	n := 0
+	for _, en := range c.allEntries() {
+		if en.role == "endpoint" || !c.P.CallsNamedAny(en.fn, 3, creates) || !c.P.RefsMethod(en.fn, 3, ".SetExpiresAt") {
+			continue
+		}
+		cfg := en.cfg
+		base := cfg.Inline
+		if base == nil {
+			base = defaultInline
+		}
+		cfg.Inline = c.orRefs(c.storageReaching(base), base, ".SetExpiresAt")
+		ex := c.Explore(en.fn, cfg, en.tag+"-storage-stamp")
+		if !c.complete(ex, rule, en.role, en.fn) {
+			continue
+		}
+		ok, m := true, 0
+		var w *Path
+		why := ""
+		for _, p := range ex.Paths {
+			for _, e := range p.Calls(".SetExpiresAt") {
+				if e.Recv == nil || !e.Recv.IsCall(".GetSession") || len(e.Recv.Args) != 1 {
+					continue
+				}
+				m++
+				owner := e.Recv.Args[0]
+				// only the persist of the credential the expiry belongs to matters (the hybrid flow
+				// stamps the access-token expiry after the code was stored and before the token is)
+				kind, _ := e.Arg(0).StrConst()
+				persistOf := map[string]string{"authorize_code": ".CreateAuthorizeCodeSession", "access_token": ".CreateAccessTokenSession", "refresh_token": ".CreateRefreshTokenSession",
+					"device_code": ".CreateDeviceAuthSession", "user_code": ".CreateDeviceAuthSession", "par_context": ".CreatePARSession"}[kind]
+				for _, cr := range p.Events[:e.Idx] {
+					if cr.Kind != "call" || cr.Name != persistOf {
+						continue
+					}
+					for _, a := range cr.Args {
+						if a != nil && a != tCtx && a.Contains(owner.Key()) && !a.IsConst() {
+							ok, w = false, p
+							why = fmt.Sprintf("%s (%s) stamps the %s expiry after %s (%s) already persisted that request", e.Name, c.P.Pos(e.Instr.Pos()), clip(e.Arg(0).Pretty(), 30), cr.Name, c.P.Pos(cr.Instr.Pos()))
+						}
+					}
+				}
+			}
+		}
+		if m > 0 {
+			n++
+			c.Check(ok, rule, en.role, en.fn, "stamped-before-persist", "every SetExpiresAt on a request's session precedes the storage call that persists that request", why, w)
+		}
+	}
+	if n < 3 {
+		c.RoleUnmatched(rule, "stamp-sites", fmt.Sprintf("at least 3 handler functions stamping an expiry and persisting; found %d", n))
+	}
 }
